@@ -11,6 +11,8 @@ mod msgpack;
 mod utf;
 #[cfg(feature = "hooks")]
 mod transcode;
+#[cfg(feature = "hooks")]
+mod chunker;
 
 use std::fs::File;
 use std::io::{BufWriter, Write};
@@ -88,6 +90,19 @@ fn main() {
 			let j = serde_json::json!({
 				"cases": st.cases, "exhaustive_scripts": st.exhaustive_scripts, "max_nodes": st.max_nodes,
 				"outcomes": st.outcomes, "nontrivial": st.nontrivial, "value_cases": st.value_cases,
+				"oracle_failures": st.oracle_failures, "samples": st.samples,
+			});
+			println!("{j}");
+		}
+		#[cfg(feature = "hooks")]
+		"chunker" => {
+			let mut cw = BufWriter::new(File::create(format!("{out}/cases.txt")).unwrap());
+			let mut iw = BufWriter::new(File::create(format!("{out}/impl.txt")).unwrap());
+			let st = chunker::generate_and_run(seed, &tier, &mut cw, &mut iw);
+			cw.flush().unwrap();
+			iw.flush().unwrap();
+			let j = serde_json::json!({
+				"cases": st.cases, "kinds": st.kinds, "docs_hist": st.docs_hist, "nontrivial": st.nontrivial,
 				"oracle_failures": st.oracle_failures, "samples": st.samples,
 			});
 			println!("{j}");
